@@ -29,14 +29,13 @@ def main():
         sid = os.path.basename(d)
         meta = json.load(open(d + "/meta.json"))
         checks = a.checks.split(",") if a.checks else [meta["breaks_property"]]
-        ap_ = subprocess.run("git -C /repo apply %s/patch.diff" % d, shell=True, capture_output=True, text=True)
+        alt = d + "/patch.rebased.diff"      # hand-rebased onto the fix: commits where the original no longer applies
+        pf = alt if os.path.exists(alt) else d + "/patch.diff"
+        ap_ = subprocess.run("git -C /repo apply %s" % pf, shell=True, capture_output=True, text=True)
         if ap_.returncode != 0:
-            ap_ = subprocess.run("git -C /repo apply --3way %s/patch.diff" % d, shell=True, capture_output=True, text=True)
+            ap_ = subprocess.run("git -C /repo apply -C1 --recount %s" % pf, shell=True, capture_output=True, text=True)
             if ap_.returncode != 0:
-                alt = d + "/patch.rebased.diff"
-                ap_ = subprocess.run("git -C /repo apply %s" % alt, shell=True, capture_output=True, text=True) if os.path.exists(alt) else ap_
-            if ap_.returncode != 0:
-                subprocess.run("git -C /repo checkout -- . ; git -C /repo reset -q", shell=True)
+                subprocess.run("git -C /repo reset -q --hard HEAD", shell=True)
                 print("%s: PATCH DOES NOT APPLY" % sid)
                 continue
         try:
@@ -56,7 +55,7 @@ def main():
                 db["%s/%s" % (c, a.tier)] = {"detected": det, "fingerprints": [l.split()[0].split("=", 1)[1] for l in vl if l.startswith("  fingerprint")][:5]}
                 meta["detected_by"] = db
         finally:
-            subprocess.run("git -C /repo checkout -- . ; git -C /repo reset -q", shell=True)
+            subprocess.run("git -C /repo reset -q --hard HEAD", shell=True)
         json.dump(meta, open(d + "/meta.json", "w"), indent=1)
     # evidence files were rewritten by mutated runs: restore them from git
     subprocess.run("git -C /verif checkout -- evidence 2>/dev/null", shell=True)
